@@ -223,7 +223,21 @@ def _pair_contract(name, a, b):
 InBrackets = _pair_contract("in_brackets", "[", "]")
 InParenthesis = _pair_contract("in_parenthesis", "(", ")")
 InBraces = _pair_contract("in_braces", "{", "}")
-InSlashes = _pair_contract("in_slashes", "/", "/")
+@register
+class InSlashes(_QM):
+    """a regular expression /.../ : strip, at least two characters, starts and ends with a slash"""
+    target = "mappyfile.quoter.Quoter.in_slashes"
+
+    @staticmethod
+    def spec(v):
+        w = S.strip(v)
+        return S.and_(S.cmp(">", S.length(w), 1), S.startswith(w, "/"), S.endswith(w, "/"))
+
+    def ensures(self, E, case, args, kwargs, out):
+        yield "result", out.kind == "return" and S.eq(S.truthy(out.value), self.spec(args[1]))
+
+    def at_call(self, E, q, v):
+        return self.spec(v)
 
 
 @register
